@@ -164,8 +164,40 @@ def run(ctx):
     for i in sub.instances:
         if i["verdict"] != "refuted":
             ctx.ok("R2", i["key"], i["detail"], i["where"])
+    def structural_descent(v):
+        """a one-function cycle that recurses only on *components of its own parsed-object parameter* (elements of the array /
+        values of the dictionary it was handed) and loads nothing by reference: its depth is the nesting depth of a value the
+        object parser already built, so it is bounded exactly when the parser's cycle is (returns 'parse' or None)"""
+        comp = (v.get("witness") or {}).get("cycle") or []
+        fns_ = [facts.fns[c] for c in comp if c in facts.fns]
+        main = [f for f in fns_ if f.kind != "Closure"]
+        if len(main) != 1:
+            return None
+        f = main[0]
+        ptypes = ("PdfObject", "PdfDictionary", "PdfArray")
+        pidx = [i for i in range(1, f.nargs + 1) if any(t in f.locals[i] for t in ptypes)]
+        if not pidx:
+            return None
+        for g_ in fns_:
+            if L.calls_to(g_, ["get_object", "resolve", "resolve_reference", "load_object_from_disk"]):
+                return None
+        fl_ = FL.flow(f)
+        nrec = 0
+        for b, c, a, d, t, u in f.calls():
+            if not isinstance(c, dict) or c.get("r") not in comp:
+                continue
+            nrec += 1
+            ok_ = False
+            for i in pidx:
+                if i - 1 < len(a):
+                    seen_, _ = fl_.back_slice(FL.op_locals(a[i - 1]))
+                    if i in seen_:
+                        ok_ = True
+            if not ok_:
+                return None
+        return "parse" if nrec else None
     for v in sub.violations:
-        dep = BOUNDED_BY.get(v["key"])
+        dep = BOUNDED_BY.get(v["key"]) or structural_descent(v)
         if dep == "parse" and not parse_unbounded:
             ctx.ok("R2", v["key"], "recursion over the nesting of an already-parsed object; the object parser's own cycle is depth-guarded", v["where"])
         elif dep == "font" and not font_unbounded:
